@@ -89,7 +89,7 @@ theorem cowFold_val (ps : Nat) (hps : 0 < ps) (file : Bytes) (p0 q : Nat) : ∀ 
 /-- **a store through a window, seen through that window**: the stored bytes where they were stored, everything else as
     before (copy-on-write snapshots the rest of the touched pages from the file) -/
 theorem slotWrite_val (ps : Nat) (hps : 0 < ps) (file : Bytes) (s : Slot) (r : Nat) (d : Bytes) (q : Nat) (hp : s.priv = true)
-    (hpg : ∀ p, p * ps < r + d.length → s.off + p * ps + ps ≤ file.length) :
+    (hpg : ∀ p, 0 < d.length → p * ps < r + d.length → s.off + p * ps + ps ≤ file.length) :
     slotVal ps file (slotWrite ps file s r d).1 q =
       if r ≤ q ∧ q < r + d.length then d.getD (q - r) 0 else slotVal ps file s q := by
   cases hd : d with
@@ -106,7 +106,7 @@ theorem slotWrite_val (ps : Nat) (hps : 0 < ps) (file : Bytes) (s : Slot) (r : N
     simp only [] at hg
     have hpages : ∀ k, k < (r + d.length - 1) / ps + 1 - r / ps → s.off + (r / ps + k) * ps + ps ≤ file.length := by
       intro k hk
-      apply hpg
+      apply hpg _ hlen
       have h1 : r / ps + k ≤ (r + d.length - 1) / ps := by omega
       have h2 := Nat.div_mul_le_self (r + d.length - 1) ps
       have h3 : (r / ps + k) * ps ≤ (r + d.length - 1) / ps * ps := Nat.mul_le_mul_right _ h1
